@@ -2,6 +2,7 @@
 package c07
 
 import (
+	"bytes"
 	"encoding/binary"
 	"fmt"
 	"time"
@@ -28,6 +29,7 @@ func init() {
 				NeedCounters: []string{"response-delivered", "stale-discarded", "foreign-to-other-ctx", "expired-protostate", "canceled-by-new-survey", "broadcast-complete", "late-response-discarded"}},
 			{Name: "surveyor-sched-expiry-vs-response", Mode: "sched", Bound: b, Reset: kit.ResetGlobals, Cfg: vsched.Config{EarlyTimers: true}, Body: schedExpiry},
 			{Name: "surveyor-sched-newsurvey-vs-response", Mode: "sched", Bound: b, Reset: kit.ResetGlobals, Body: schedNewSurvey},
+			{Name: "surveyor-slow-respondent-survey-sequence", Mode: "enum", Reset: kit.ResetGlobals, Body: slowRespondent, NeedCounters: []string{"queued-surveys-intact"}},
 			{Name: "surveyor-shared-message-two-contexts", Mode: "sched", Bound: b, Reset: kit.ResetGlobals, Body: schedSharedMessage},
 			{Name: "xsurveyor-hist", Mode: "hist", Reset: kit.ResetGlobals, Body: func() { rawHist(4) }},
 		}
@@ -368,6 +370,67 @@ func schedNewSurvey() {
 		kit.Failf("sched-recv2", "Recv on the second survey: done=%v %s / %q, want \"new-response\"", r2.Done(), kit.ErrName(r2.Err), r2.Val)
 	}
 	kit.Observe("%s", kit.ErrName(rc.Err))
+}
+
+// slowRespondent: one respondent is slow (takes what it is given only later) while 2-4 surveys
+// are started one after the other on the same socket or context.  The quick respondent sees them
+// as they are sent; the slow one, when it finally takes, must be given the very same sequence: each
+// survey under its own id with its own body (a queued survey is not rewritten by a later one), and
+// an answer to an earlier id is not delivered as an answer to the current survey.
+func slowRespondent() {
+	w := setup()
+	who := kit.ChooseFree(2)
+	n := 2 + kit.ChooseFree(3)
+	m := w.ctxs[who]
+	w.pipes[0].Hold(true)
+	for i := 0; i < n; i++ {
+		body := fmt.Sprintf("survey-%d", i)
+		c := kit.Start("Send", func() (interface{}, error) { return nil, m.send([]byte(body)) })
+		kit.Quiesce()
+		if !c.Done() || c.Err != nil {
+			kit.Failf("survey-send", "%s: survey %d with one slow respondent: done=%v %s", m.name, i, c.Done(), kit.ErrName(c.Err))
+		}
+	}
+	w.pipes[0].Hold(false)
+	w.pipes[0].Take(10)
+	kit.Quiesce()
+	wire := w.newWire()
+	if len(wire[1]) != n {
+		kit.Failf("broadcast-incomplete", "the quick respondent saw %d of %d surveys", len(wire[1]), n)
+	}
+	if len(wire[0]) != n {
+		kit.Failf("broadcast-incomplete", "the slow respondent was given %d of %d surveys once it took them (the queue holds far more)", len(wire[0]), n)
+	}
+	ids := map[uint32]bool{}
+	for i := 0; i < n; i++ {
+		q, sl := wire[1][i].Data, wire[0][i].Data
+		if string(q[4:]) != fmt.Sprintf("survey-%d", i) {
+			kit.Failf("survey-body", "quick respondent, survey %d: body %q", i, q[4:])
+		}
+		id := binary.BigEndian.Uint32(q)
+		if ids[id] {
+			kit.Failf("survey-id-reused", "survey %d went out under an id used before (%08x)", i, id)
+		}
+		ids[id] = true
+		if !bytes.Equal(q, sl) {
+			kit.Failf("queued-survey-rewritten", "%s: survey %d reached the quick respondent as %x and, after waiting in the queue, the slow one as %x", m.name, i, q, sl)
+		}
+	}
+	// an answer to the first survey is stale now; an answer to the last one is delivered
+	first := binary.BigEndian.Uint32(wire[1][0].Data)
+	last := binary.BigEndian.Uint32(wire[1][n-1].Data)
+	h := make([]byte, 4)
+	binary.BigEndian.PutUint32(h, first)
+	w.pipes[0].Deliver(append(append([]byte{}, h...), "answer-to-the-first"...))
+	binary.BigEndian.PutUint32(h, last)
+	w.pipes[0].Deliver(append(append([]byte{}, h...), "answer-to-the-last"...))
+	rc := kit.Start("Recv", func() (interface{}, error) { b, err := m.recvCall(); return string(b), err })
+	kit.Quiesce()
+	if !rc.Done() || rc.Err != nil || rc.Val.(string) != "answer-to-the-last" {
+		kit.Failf("stale-response-delivered", "%s: an answer to survey 0 and one to the current survey %d arrived: Recv done=%v %s %q", m.name, n-1, rc.Done(), kit.ErrName(rc.Err), rc.Val)
+	}
+	kit.Count("queued-surveys-intact")
+	kit.Observe("%s n=%d", m.name, n)
 }
 
 // schedSharedMessage: the application sends one message, cloned, as a survey on two contexts
